@@ -35,6 +35,10 @@ const (
 	OpReplace  = "replace"   // char: forward With instead
 	OpDelay    = "delay"     // block or char: stall this direction for Delay before forwarding it
 	OpDelayMid = "delaymid"  // block: forward Pos characters, stall for Delay, forward the rest
+	// block: the length character is LOWERED to K (10 <= K < its value); the 1+K+2 characters a receiver will take for
+	// the block are forwarded, the rest follows after Delay (a character-paced line). SplitGaps reports the measured
+	// time between the two writes.
+	OpShorten = "shorten"
 )
 
 // Rule is one entry of a fault plan.
@@ -73,6 +77,8 @@ func (r Rule) String() string {
 		s += fmt.Sprintf(" delay %s", r.Delay)
 	case OpDelayMid:
 		s += fmt.Sprintf(" delay %s @%d", r.Delay, r.Pos)
+	case OpShorten:
+		s += fmt.Sprintf(" length->%d, rest after %s", r.K, r.Delay)
 	}
 
 	return s
@@ -128,6 +134,7 @@ func (e Ev) String() string {
 type wItem struct {
 	b         []byte
 	notBefore time.Time
+	mark      int // 1: head of a shortened block, 2: its tail
 }
 
 // Mitm is the middlebox.
@@ -146,6 +153,9 @@ type Mitm struct {
 	gen             int
 	gatesLeft       int
 	contentionsMade int
+
+	splitHead time.Time
+	splitGaps []time.Duration
 
 	closed  atomic.Int64 // sessions that have ended
 	lastAct atomic.Int64 // unix nanos of the last character seen
@@ -201,6 +211,14 @@ func (m *Mitm) Applied() (map[int]int, int) {
 	}
 
 	return out, m.contentionsMade
+}
+
+// SplitGaps returns, for every shortened block, the measured time between the write of its head and of its tail.
+func (m *Mitm) SplitGaps() []time.Duration {
+	m.mu.Lock()
+	defer m.mu.Unlock()
+
+	return append([]time.Duration(nil), m.splitGaps...)
 }
 
 // Base is the zero point of the Ev.T timestamps.
@@ -325,6 +343,15 @@ func (m *Mitm) session(a, b net.Conn) {
 				if _, err := conns[s].Write(it.b); err != nil {
 					dead = true
 				}
+				if it.mark != 0 {
+					m.mu.Lock()
+					if it.mark == 1 {
+						m.splitHead = time.Now()
+					} else {
+						m.splitGaps = append(m.splitGaps, time.Since(m.splitHead))
+					}
+					m.mu.Unlock()
+				}
 			}
 		}(s)
 	}
@@ -412,6 +439,7 @@ func (m *Mitm) session(a, b net.Conn) {
 		var delay time.Duration
 		var second []byte
 		var secondDelay time.Duration
+		shortened := false
 		if ri, r := m.match(side, OnBlock, ev.Occ); r != nil {
 			cp := append([]byte(nil), raw...)
 			switch r.Op {
@@ -447,12 +475,24 @@ func (m *Mitm) session(a, b net.Conn) {
 			case OpDelayMid:
 				p := 1 + r.Pos%(len(cp)-1)
 				fwd, second, secondDelay = cp[:p], cp[p:], r.Delay
+			case OpShorten:
+				if r.K >= e4.MinLen && r.K < int(cp[0]) {
+					cp[0] = byte(r.K)
+					shortened = true
+					fwd, second, secondDelay = cp[:1+r.K+2], cp[1+r.K+2:], r.Delay
+				}
 			}
 			ev.Fault = r.String()
 			m.markApplied(ri)
 		}
 		ev.Fwd = len(fwd) + len(second)
 		m.record(ev)
+		if shortened {
+			out[1-side] <- wItem{b: append([]byte(nil), fwd...), mark: 1}
+			out[1-side] <- wItem{b: append([]byte(nil), second...), notBefore: time.Now().Add(secondDelay), mark: 2}
+
+			return
+		}
 		send(1-side, fwd, delay)
 		if second != nil {
 			send(1-side, second, secondDelay)
